@@ -20,7 +20,7 @@ func init() {
 	c := eng.Register(&eng.Check{
 		ID:          "C12",
 		Title:       "Numeric literals denote exactly the decimal number written",
-		Rule:        "every string up to n characters over {0 5 . e + - _ a x} that begins with a digit or '.', and long literals (integer / fraction parts of every length 0..40 in three digit patterns, exponents with up to 40 digits of which at most 3 significant, a separator at every single position of shorter literals and of literals with digit groups of 20 to 257 digits; all pairs and triples of 21 short literal formulas evaluated one after the other by one runner, compared with fresh runners): the reference number automaton of the statement decides reject or the exact decimal value; the implementation must agree on accept/reject, on the tree, and on the evaluated value in the contexts [L], [-L], [f(L)], [x?L:L], [(L,L)], [L,L]; distinct = distinct exact values (or 'reject')",
+		Rule:        "every string up to n characters over {0 5 . e + - _ a x} that begins with a digit or '.', and long literals (integer / fraction parts of every length 0..40 in three digit patterns, exponents with up to 40 digits of which at most 3 significant, a separator at every single position of shorter literals and of literals with digit groups of 20 to 257 digits; all pairs and triples of 25 short literal formulas (incl. exponents beyond every range, refused) evaluated one after the other by one runner, compared with fresh runners): the reference number automaton of the statement decides reject or the exact decimal value; the implementation must agree on accept/reject, on the tree, and on the evaluated value in the contexts [L], [-L], [f(L)], [x?L:L], [(L,L)], [L,L]; distinct = distinct exact values (or 'reject')",
 		TrustedBase: []string{"internal/ref/tok.go number automaton", "internal/ref/dec.go"},
 		Assumptions: []string{"exponents of more than 17 significant digits are beyond every decimal implementation's range: for those the check only requires an error or a value that behaves like the number written (sign, side of 1, finite, equal to itself) - never a silently different number"},
 		Run:         runC12,
@@ -225,7 +225,7 @@ type HistLitCase struct {
 var c12Hist *eng.Kind[HistLitCase]
 
 // formulas whose literals occupy the same places of the text, with different values
-var c12HistLits = []string{"7", "9", "100 + 25", "100 + 75", "0.5 * 4", "1e2 + 25", "[7]", "[9]", ".5", "5.", "1_0", "10", "-7", "-9", "07", "7.0", "7e0", "f(7)", "f(9)", "x?7:9", "x?9:7"}
+var c12HistLits = []string{"7", "9", "100 + 25", "100 + 75", "0.5 * 4", "1e2 + 25", "[7]", "[9]", ".5", "5.", "1_0", "10", "-7", "-9", "07", "7.0", "7e0", "f(7)", "f(9)", "x?7:9", "x?9:7", "1e99999999999999999999", "1.5e3", "25e-1", "7e-99999999999999999999"}
 
 func judgeHistLit(c HistLitCase) *eng.Fail {
 	data := map[string]interface{}{"f": goodFunc, "x": true}
